@@ -19,8 +19,8 @@ EXPLANATION = (
     'removal, validate-before-mutate ordering, and path/parent propagation '
     'coverage.  It decides that the mechanisms are on every path; it does not '
     'execute histories.')
-FLOORS = {'C01.a': 10, 'C01.b': 4, 'C01.c': 2, 'C01.d': 3, 'C01.e': 1,
-          'C01.f': 7, 'C01.m2': 5, 'C01.g': 1}
+FLOORS = {'C01.a': 10, 'C01.b': 4, 'C01.c': 2, 'C01.d': 3, 'C01.e': 1, 'C01.h': 2,
+          'C01.f': 7, 'C01.m2': 5, 'C01.g': 1, 'C01.h': 2}
 
 FILES = c08.FILES
 
@@ -164,6 +164,26 @@ def rule_b(ctx, raws):
               if g.can_skip(m, lambda k: k is cn[0], to=topo_tests[0] if topo_tests else None):
                 problems.append('value parented elsewhere can skip the clone')
   problems += relocate_identity_problems(f)
+  # a parentless value is not necessarily a free one: the attribute container of an
+  # object under construction has no parent to give yet, so a value already placed
+  # at another key of it is recognised by its path and cloned too
+  parent_none = set()
+  for n in g.nodes:
+    if n.kind != 'test' or not (isinstance(n.ast, ast.Compare) and len(n.ast.ops) == 1
+                                and A.unparse(n.ast.comparators[0]) == 'None'
+                                and A.unparse(n.ast.left).endswith('.sym_parent')):
+      continue
+    lab = 'true' if isinstance(n.ast.ops[0], ast.IsNot) else 'false'
+    parent_none |= {(n.id, m.id, l) for m, l in n.succ if l == lab}     # assume: the value has no parent
+  clone_nodes = {k.id for k in g.nodes if k.ast is not None and any(n is k.ast for n in clones)}
+  seen_np, _ = g.reach(g.entry, blocked_edges=parent_none, follow_exc=False)
+  path_cmp = any(isinstance(n, ast.Compare) and len(n.ops) == 1 and isinstance(n.ops[0], (ast.NotEq, ast.Eq))
+                 and any(A.unparse(x).endswith('.sym_path') for x in (n.left, n.comparators[0])) for n in ast.walk(f.node))
+  ctx.ob('C01.b', f.fq + '#unattached-container', bool(clone_nodes & seen_np) and path_cmp,
+         'a value without a parent that already sits at another location (same object passed for two arguments '
+         'of an object under construction) is cloned as well: one node never appears in two places', f.loc,
+         'with `sym_parent is None` no clone is reachable: P(p=x, q=x) stores the very same node under p and q '
+         '(both report path q)')
   ctx.ob('C01.b', f.fq, not problems,
          'relocation: clone when parented elsewhere, then set path = '
          'KeyPath(key, self.sym_path) and parent = _sym_parent_for_children() '
@@ -623,8 +643,49 @@ def rule_f(ctx):
          'children of a plain Dict to the Dict', f.loc, '; '.join(problems))
 
 
+def rule_h(ctx):
+  """The default object held by a schema never becomes a node of an instance's
+  tree: wherever a field's default is taken as the value to store, it is copied
+  first (as Schema.apply does at construction).  Otherwise the first instance
+  that resets the field adopts the class-level default itself, and a later
+  mutation of that child changes the default of every future instance."""
+  idx = ctx.index
+  n = 0
+  COPIERS = ('copy.deepcopy', 'deepcopy')
+  for q in ('pyglove.core.typing.class_schema.Schema.apply',
+            S.DICT + '._formalized_value', S.LIST + '._formalized_value', S.OBJECT + '._formalized_value'):
+    f = idx.find_func(q)
+    if f is None:
+      continue
+    bad = []
+    reads = 0
+    for st in A.walk_local(f.node):
+      if not isinstance(st, (ast.Assign, ast.Return)) or st.value is None:
+        continue
+      v = st.value
+      dfl = [x for x in ast.walk(v) if isinstance(x, ast.Attribute) and x.attr in ('default_value', 'default')
+             and isinstance(x.ctx, ast.Load)]
+      if not dfl:
+        continue
+      for x in dfl:
+        reads += 1
+        # the default must sit inside a copying call within this value expression
+        copied = any(isinstance(c, ast.Call) and ((A.call_name(c) or '') in COPIERS or
+                                                  (isinstance(c.func, ast.Attribute) and c.func.attr in ('clone', 'sym_clone')))
+                     and any(y is x for y in ast.walk(c)) for c in ast.walk(v))
+        if not copied:
+          bad.append(f'line {st.lineno}: `{A.unparse(st, 70)}` takes the schema\'s default object itself')
+    if reads:
+      n += 1
+      ctx.ob('C01.h', f.fq, not bad,
+             'a schema default is copied before it is stored: the default object of the class is never a child of an instance',
+             f.loc, '; '.join(bad))
+  if n < 2:
+    raise AnalysisError(f'only {n} functions take a field default as the value to store')
+
+
 def run(ctx):
-  ctx.consult(*FILES)
+  ctx.consult(*FILES, 'pyglove/core/typing/class_schema.py')
   c08.rule_a(ctx, 'C01.a')
   raws = rule_m2(ctx)
   rule_b(ctx, raws)
@@ -633,5 +694,6 @@ def run(ctx):
   rule_e(ctx)
   rule_f(ctx)
   rule_g(ctx)
+  rule_h(ctx)
   ctx.note(f'{len(raws)} raw storage writes in {len({r.func.fq for r in raws})} functions')
   ctx.assume('aliasing through user subclasses outside the repository is out of scope')
